@@ -37,14 +37,15 @@ theorem trust_root_kept (valid : Hdr H R → Hdr H R → Bool) (g : Hdr H R) (ca
 
 /-- The canonical index is a gap-free, parent-linked chain of stored headers from the trust root to the head:
 every height from the root's to the current one holds the hash of a stored header of that height, the root's height
-holds the root, and the header at height `n + 1` has the one at height `n` as parent. -/
+holds the root, the header at height `n + 1` has the one at height `n` as parent, and nothing is indexed below the root. -/
 theorem main_inv (valid : Hdr H R → Hdr H R → Bool) (g : Hdr H R) (calls : List (List (Hdr H R))) :
     let s := run valid g calls
     g.number ≤ s.cur ∧ s.main g.number = some g.hash ∧
     (∀ n, g.number ≤ n → n ≤ s.cur → ∃ e, s.main n = some e.hdr.hash ∧ s.index e.hdr.hash = some e ∧ e.hdr.number = n) ∧
-    (∀ n k e, g.number ≤ n → n + 1 ≤ s.cur → s.main (n + 1) = some k → s.index k = some e → s.main n = some e.hdr.parent) := by
+    (∀ n k e, g.number ≤ n → n + 1 ≤ s.cur → s.main (n + 1) = some k → s.index k = some e → s.main n = some e.hdr.parent) ∧
+    (∀ n, n < g.number → s.main n = none) := by
   have inv := (run_inv valid g calls).1
-  exact ⟨inv.cur_ge, inv.main_g, inv.main_ok, inv.main_link⟩
+  exact ⟨inv.cur_ge, inv.main_g, inv.main_ok, inv.main_link, inv.main_low⟩
 
 /-- The head (the header the index names at the current height) exists and its total difficulty is maximal among all
 stored headers. -/
